@@ -34,6 +34,9 @@ func (w *World) ledgerPrefix() ([]Op, map[string]TransferSpec) {
 	addT(TransferSpec{"channel-0", denomUSDC, "777", orb, w.FwdHyp(1), nil})
 	addT(TransferSpec{"channel-0", denomUSDC, "500", orb, w.FwdInternal(w.Bob), nil})
 	addT(TransferSpec{"channel-1", denomOTH, "10001", orb, w.FwdInternal(w.Bob), []FeeSpec{{To: w.Fee1.String(), Fixed: "7"}, {To: w.Fee2.String(), Bps: 100}}})
+	// a fee paid to a MODULE address that no account object exists for yet (the dust collector is created lazily by
+	// the first sweep): histories continue from the state in which the fee action has created an account there
+	addT(TransferSpec{"channel-0", denomUSDC, "400", orb, w.FwdInternal(w.Bob), []FeeSpec{{To: w.Dust.String(), Fixed: "1"}}})
 	ops = append(ops,
 		w.OpDeposit(w.Orb, denomUSDC, 5),
 		w.OpDeposit(w.Orb, denomOTH, 3),
